@@ -3,6 +3,9 @@ package props
 import (
 	"fmt"
 	"os"
+	"path/filepath"
+
+	"verif/mc/instrument"
 )
 
 var workerModes = map[string]func(args []string) int{}
@@ -18,4 +21,27 @@ func workerMain(args []string) int {
 		return 2
 	}
 	return f(args[1:])
+}
+
+func init() {
+	workerModes["instrument"] = func(args []string) int {
+		if len(args) < 1 {
+			fmt.Fprintln(os.Stderr, "usage: instrument <outdir> [sched]")
+			return 2
+		}
+		res, err := instrument.Run(instrument.Options{Repo: RepoDir(), OutDir: args[0], VrtSource: filepath.Join(os.Getenv("VERIF_ROOT"), "mc", "rt", "vrt.go.src"),
+			Patterns: []string{"./generator/...", "./codescan/...", "./cmd/swagger/..."}, Scheduler: len(args) > 1 && args[1] == "sched"})
+		if err != nil {
+			fmt.Fprintln(os.Stderr, err)
+			return 1
+		}
+		fmt.Printf("sites=%d skipped=%d watched=%d overlay=%s\n", len(res.Sites), len(res.Skipped), len(res.WatchedVars), res.Overlay)
+		for _, s := range res.Skipped {
+			fmt.Println("skipped:", s)
+		}
+		for _, w := range res.WatchedVars {
+			fmt.Println("watched:", w)
+		}
+		return 0
+	}
 }
